@@ -520,6 +520,82 @@ fn range_edges(rng: &mut Rng) -> String {
     }
 }
 
+// ------------------------------------------------------------------ deeply nested inputs (separate process)
+//
+// An input nested tens of thousands of levels deep makes the recursive-descent parser (or the passes after it)
+// overflow the stack: the process is killed by a signal, which no in-process guard can observe. These few inputs
+// are therefore handed to the real `numbat` binary (built from the current tree) in a child process.
+
+const CLI_BIN: &str = "/repo/target/debug/numbat";
+
+fn build_cli() -> Result<(), String> {
+    let o = std::process::Command::new("cargo")
+        .args(["build", "--offline", "-p", "numbat-cli"])
+        .current_dir("/repo")
+        .env("CARGO_NET_OFFLINE", "true")
+        .env("CARGO_TERM_COLOR", "never")
+        .output()
+        .map_err(|e| format!("cargo not runnable: {e}"))?;
+    if !o.status.success() {
+        return Err(format!("cargo build -p numbat-cli failed:\n{}", String::from_utf8_lossy(&o.stderr)));
+    }
+    Ok(())
+}
+
+fn deep_input(shape: &str, n: usize) -> Option<String> {
+    Some(match shape {
+        "parens" => format!("{}1{}", "(".repeat(n), ")".repeat(n)),
+        "if-else" => format!("{}2", "if true then 1 else ".repeat(n)),
+        "sum" => format!("if false then {} else 2", vec!["1.5"; n].join("+")),
+        "unary-minus" => format!("{}1", "-".repeat(n)),
+        "list" => format!("{}1{}", "[".repeat(n), "]".repeat(n)),
+        _ => return None,
+    })
+}
+
+/// `deep <shape> <n>`: the input must end with a result or a reported error (exit status 0 or 1), not with a signal
+fn deep_probe(out: &mut Out, shape: &str, n: usize) {
+    let Some(text) = deep_input(shape, n) else { return };
+    let dir = std::env::temp_dir().join(format!("C08_deep_{}", std::process::id()));
+    let _ = std::fs::create_dir_all(&dir);
+    let file = dir.join("deep.nbt");
+    if std::fs::write(&file, &text).is_err() { return; }
+    let line = format!("deep {} {}", shape, n);
+    let mut child = match std::process::Command::new(CLI_BIN)
+        .args(["--no-config", "--no-init", "--no-prelude", "--color", "never"])
+        .arg(&file)
+        .env("HOME", &dir)
+        .env("XDG_CONFIG_HOME", dir.join("cfg"))
+        .stdin(std::process::Stdio::null())
+        .stdout(std::process::Stdio::null())
+        .stderr(std::process::Stdio::null())
+        .spawn()
+    {
+        Ok(c) => c,
+        Err(e) => { out.oracle_fail(&format!("deep-nesting:spawn:{}", shape), &line, &format!("could not run {}: {}", CLI_BIN, e)); return; }
+    };
+    let t0 = Instant::now();
+    let status = loop {
+        match child.try_wait() {
+            Ok(Some(s)) => break Some(s),
+            Ok(None) if t0.elapsed() > Duration::from_secs(60) => { let _ = child.kill(); let _ = child.wait(); break None; }
+            Ok(None) => std::thread::sleep(Duration::from_millis(20)),
+            Err(_) => break None,
+        }
+    };
+    out.case(&line, true);
+    out.count("class_deep_nesting");
+    match status {
+        None => out.oracle_fail(&format!("hang:deep-nesting:{}:{}", shape, n), &line, &format!("no result within 60 s for {} nested {} levels deep", shape, n)),
+        Some(s) => match s.code() {
+            Some(0) | Some(1) => out.count("deep_nesting_reported"),
+            Some(c) => out.oracle_fail(&format!("abort:deep-nesting:{}:{}", shape, n), &line, &format!("`{}` nested {} levels deep: the process exits with status {} (neither a result nor a reported error)", shape, n, c)),
+            None => out.oracle_fail(&format!("abort:deep-nesting:{}:{}", shape, n), &line, &format!("`{}` nested {} levels deep ({} bytes): the process is killed by a signal (stack overflow) instead of reporting an error", shape, n, text.len())),
+        },
+    }
+    let _ = std::fs::remove_dir_all(&dir);
+}
+
 fn const_exponent(rng: &mut Rng) -> String {
     fn ex(rng: &mut Rng, depth: usize) -> String {
         let ints = ["0", "1", "2", "3", "-1", "-2", "-3", "(1 - 1)", "(-0)", "0.5", "(1/2)", "10", "127", "(2^62)"];
@@ -581,6 +657,11 @@ fn main() {
         for l in read_lines(p) {
             if l.starts_with("in ") || l.starts_with("rep ") || l.starts_with("wrap ") {
                 judge(pool, out, &l, "corpus", false);
+            } else if let Some(rest) = l.strip_prefix("deep ") {
+                let w: Vec<&str> = rest.split(' ').collect();
+                if let (Some(shape), Some(n)) = (w.first(), w.get(1).and_then(|x| x.parse::<usize>().ok())) {
+                    if build_cli().is_ok() { deep_probe(out, shape, n); }
+                }
             } else if let Some(rest) = l.strip_prefix("sess ") {
                 // a history: inputs separated by ` ;; `, run one after the other in one session
                 pool.run(Job::ResetSession, Duration::from_secs(20));
@@ -668,6 +749,16 @@ fn main() {
             out.count("stopped_after_hangs");
             break;
         }
+    }
+    // deeply nested inputs, in a child process (moderate depths must simply work; the large ones are the recorded finding)
+    match build_cli() {
+        Ok(()) => {
+            for (shape, n) in [("parens", 100usize), ("if-else", 50), ("sum", 100), ("unary-minus", 100), ("list", 100),
+                               ("parens", 100_000), ("if-else", 5_000), ("sum", 40_000), ("unary-minus", 100_000), ("list", 100_000)] {
+                deep_probe(&mut out, shape, n);
+            }
+        }
+        Err(e) => out.oracle_fail("deep-nesting:build", "deep parens 200", &e),
     }
     out.count_n("hangs", pool.hangs as u64);
     out.finish();
